@@ -149,52 +149,116 @@ def fk(i, w):
     d = fdot(N, I)
     return z3.fpSub(RNE, one, z3.fpMul(RNE, z3.fpMul(RNE, eta, eta), z3.fpSub(RNE, one, z3.fpMul(RNE, d, d)))), d
 def val_eq(x, y): return z3.Or(z3.fpEQ(x, y), z3.And(z3.fpIsNaN(x), z3.fpIsNaN(y)))
-REGIONS = {'tir': lambda res, k: z3.fpLT(fk(res.ins, res.ins[0][0].size())[0], FPV(0.0, res.ins[0][0].size()))}
-def refract_fp_spec(L, w):
+def _is_const(t, v):
+    return z3.is_fp_value(t) and not t.isNaN() and not t.isInf() and not t.isNegative() and z3.is_true(z3.simplify(z3.fpEQ(t, z3.FPVal(v, t.sort()))))
+def _facts(c, val):
+    """sub-formulas whose truth value follows from c == val (one level of and/or/not)"""
+    out = [(c, z3.BoolVal(val))]
+    if z3.is_not(c): out += _facts(c.arg(0), not val)
+    elif (z3.is_and(c) and val) or (z3.is_or(c) and not val):
+        for x in c.children(): out += _facts(x, val)
+    return out
+def concrete(i): return all(z3.is_bv_value(x) or z3.is_rational_value(x) for row in i for x in row)
+def canon(e, abstract_sqrt=True):
+    """Normal form of a formula over IEEE terms so that the compiled code and the transcribed formula meet syntactically (bit-blasting
+    two commuted 53-bit multipliers against each other does not finish).  Every rewrite is an exact IEEE identity (proved as the
+    'ieee-lemma' obligations below) except the last one, which is a sound over-approximation for proving:
+      fp.mul/fp.add operands sorted (commutativity);  x < y  ->  not NaN x, not NaN y, not (y <= x);  uitofp(c ? 1 : 0) -> c ? 1.0 : 0.0;
+      x * (c ? 1.0 : 0.0) -> c ? x : x * 0.0;  to_fp(to_ieee_bv(x)) -> x (z3 has a single NaN);  (c ? A : B) -> (c ? A[c:=true] : B[c:=false]);  sqrt(t) -> (t < 0 ? NaN : fresh constant keyed by t)   [skipped when replaying concrete values]"""
+    memo = {}
+    def go(t):
+        k = t.get_id()
+        if k in memo: return memo[k][1]
+        r = None
+        if z3.is_app(t) and t.num_args() > 0:
+            ch = [go(c_) for c_ in t.children()]; dk = t.decl().kind()
+            if dk == z3.Z3_OP_FPA_TO_FP_UNSIGNED and len(ch) == 2 and z3.is_app(ch[1]) and ch[1].decl().kind() == z3.Z3_OP_ITE and all(z3.is_bv_value(ch[1].arg(n_)) and ch[1].arg(n_).as_long() <= 1 for n_ in (1, 2)):
+                r = z3.If(ch[1].arg(0), z3.FPVal(float(ch[1].arg(1).as_long()), t.sort()), z3.FPVal(float(ch[1].arg(2).as_long()), t.sort()))
+            elif dk == z3.Z3_OP_FPA_TO_FP and len(ch) == 1 and z3.is_app(ch[0]) and ch[0].decl().kind() == z3.Z3_OP_FPA_TO_IEEE_BV and ch[0].arg(0).sort() == t.sort():
+                r = ch[0].arg(0)
+            elif dk == z3.Z3_OP_ITE:
+                r = z3.If(ch[0], z3.substitute(ch[1], *_facts(ch[0], True)), z3.substitute(ch[2], *_facts(ch[0], False)))
+            elif dk == z3.Z3_OP_IMPLIES:
+                r = z3.Implies(ch[0], z3.substitute(ch[1], *_facts(ch[0], True)))
+            elif dk == z3.Z3_OP_FPA_MUL:
+                for x, y in ((ch[1], ch[2]), (ch[2], ch[1])):
+                    if z3.is_app(y) and y.decl().kind() == z3.Z3_OP_ITE and _is_const(y.arg(1), 1.0) and _is_const(y.arg(2), 0.0):
+                        r = z3.If(y.arg(0), x, go(z3.fpMul(ch[0], x, y.arg(2)))); break
+            elif dk == z3.Z3_OP_FPA_LT:
+                r = z3.And(z3.Not(go(z3.fpIsNaN(ch[0]))), z3.Not(go(z3.fpIsNaN(ch[1]))), z3.Not(go(z3.fpLEQ(ch[1], ch[0]))))
+            elif dk == z3.Z3_OP_FPA_GT:
+                r = z3.And(z3.Not(go(z3.fpIsNaN(ch[0]))), z3.Not(go(z3.fpIsNaN(ch[1]))), z3.Not(go(z3.fpLEQ(ch[0], ch[1]))))
+            elif dk == z3.Z3_OP_FPA_GE: r = go(z3.fpLEQ(ch[1], ch[0]))
+            elif dk == z3.Z3_OP_FPA_SQRT and abstract_sqrt:
+                srt = ch[1].sort()
+                r = z3.If(go(z3.fpLT(ch[1], z3.FPVal(0.0, srt))), z3.fpNaN(srt), z3.Const('sqrt_of_%d' % ch[1].get_id(), srt))
+            if r is None:
+                if dk in (z3.Z3_OP_FPA_MUL, z3.Z3_OP_FPA_ADD) and ch[1].get_id() > ch[2].get_id(): ch = [ch[0], ch[2], ch[1]]
+                r = t.decl()(*ch)
+        else: r = t
+        memo[k] = (t, r); return r      # keep t alive: ids of collected temporaries are reused
+    return z3.simplify(go(z3.simplify(e)))
+def job_lemmas(S):
+    """the IEEE identities canon() relies on, all bit patterns"""
+    for t, (c, w) in FT.items():
+        x = z3.BitVec('x', w); y = z3.BitVec('y', w); X, Y = fpof(x), fpof(y); one = FPV(1.0, w); z = FPV(0.0, w); tm = S.cap(120, 300)
+        S.prove('c12.ieee-lemma.%s.mul-one' % t, val_eq(z3.fpMul(RNE, X, one), X), timeout=tm, kind='lemma', bounds='all x')
+        S.prove('c12.ieee-lemma.%s.lt-as-not-leq' % t, z3.fpLT(X, Y) == z3.And(z3.Not(z3.fpIsNaN(X)), z3.Not(z3.fpIsNaN(Y)), z3.Not(z3.fpLEQ(Y, X))), timeout=tm, kind='lemma', bounds='all x, y')
+        S.prove('c12.ieee-lemma.%s.sqrt-negative-is-nan' % t, z3.Implies(z3.fpLT(X, z), z3.fpIsNaN(z3.fpSqrt(RNE, X))), timeout=tm, kind='lemma', bounds='all x', mandatory=(w == 32))
+REGIONS = {'tir': lambda res, k: canon(z3.fpLT(fk(res.ins, res.ins[0][0].size())[0], FPV(0.0, res.ins[0][0].size())))}
+def knan(w): return lambda i: [canon(z3.Not(z3.fpIsNaN(fk(i, w)[0])))]
+def refract_fp_spec(L, w, split):
+    """'==' on FP terms is SMT-LIB '=': identical value, +0 and -0 distinct, all NaNs identified (i.e. bit-identical or both NaN).
+    split=False: one atom per component  out == (k < 0 ? +0 : eta*I - (eta*dot(N,I) + sqrt(k))*N);
+    split=True: the two halves as separate labels (needed where a known finding covers only the k < 0 half)"""
     def spec(i, o):
-        I = [fpof(x) for x in i[0]]; N = [fpof(x) for x in i[1]]; eta = fpof(i[2][0]); zero = FPV(0.0, w)
+        I = [fpof(x) for x in i[0]]; N = [fpof(x) for x in i[1]]; eta = fpof(i[2][0]); zero = FPV(0.0, w); ab = not concrete(i)
         k, d = fk(i, w); c = z3.fpAdd(RNE, z3.fpMul(RNE, eta, d), z3.fpSqrt(RNE, k)); g = []
         for j in range(L):
             f = z3.fpSub(RNE, z3.fpMul(RNE, eta, I[j]), z3.fpMul(RNE, c, N[j]))
-            g.append(('zero-on-total-reflection%d' % j, z3.Implies(z3.fpLT(k, zero), o[0][j].bits == 0)))
-            g.append(('formula-otherwise%d' % j, z3.Implies(z3.fpGEQ(k, zero), same_float(o[0][j], z3.fpToIEEEBV(f)))))
+            g.append(('zero-on-total-reflection%d' % j, canon(z3.Implies(z3.fpLT(k, zero), fpv_of(o[0][j]) == zero), ab)))
+            if split: g.append(('formula-otherwise%d' % j, canon(z3.Implies(z3.fpGEQ(k, zero), fpv_of(o[0][j]) == f), ab)))
+            else: g.append(('glsl-definition%d' % j, canon(fpv_of(o[0][j]) == z3.If(z3.fpLT(k, zero), zero, f), ab)))
         return g
     return spec
 def faceforward_fp_spec(L, w):
     def spec(i, o):
         N = i[0]; d = fdot([fpof(x) for x in i[2]], [fpof(x) for x in i[1]])
-        return [('decision%d' % j, z3.If(z3.fpLT(d, FPV(0.0, w)), o[0][j].bits == N[j], val_eq(o[0][j].fp, z3.fpNeg(fpof(N[j]))))) for j in range(L)]
+        return [('decision%d' % j, canon(z3.If(z3.fpLT(d, FPV(0.0, w)), fpv_of(o[0][j]) == fpof(N[j]), val_eq(fpv_of(o[0][j]), z3.fpNeg(fpof(N[j])))))) for j in range(L)]
+    return spec
+def signflip_spec(L, w):
+    def spec(i, o):
+        d = fdot([fpof(x) for x in i[2]], [fpof(x) for x in i[1]])
+        return [('sign-flip%d' % j, canon(z3.Implies(z3.Not(z3.fpLT(d, FPV(0.0, w))), z3.Or(bits_of(o[0][j]) == (i[0][j] ^ z3.BitVecVal(1 << (w - 1), w)), is_nan(i[0][j]))))) for j in range(L)]
     return spec
 def job_fp(t, L):
     c, w = FT[t]; s = '_v%d_%s' % (L, t)
     def run(S):
         tm = S.cap(90, 300)
-        knan = lambda i: [z3.Not(z3.fpIsNaN(fk(i, w)[0]))]
-        S.check_fn(U, 'refract' + s, refract_fp_spec(L, w), knan, timeout=tm, name='c12.refract%s.fp' % s, bounds='all bit patterns of I, N, eta for which the documented k is not NaN',
+        S.check_fn(U, 'refract' + s, refract_fp_spec(L, w, False), knan(w), timeout=tm, name='c12.refract%s.fp' % s, bounds='all bit patterns of I, N, eta for which the documented k is not NaN',
                    mutant=lambda i, o: [('m', z3.Implies(z3.fpLEQ(fk(i, w)[0], FPV(0.0, w)), o[0][0].bits == 0))])
         S.check_fn(U, 'faceforward' + s, faceforward_fp_spec(L, w), timeout=tm, name='c12.faceforward%s.fp' % s, bounds='all bit patterns (NaN, inf, +-0 included)',
-                   mutant=lambda i, o: [('m', z3.If(z3.fpLEQ(fdot([fpof(x) for x in i[2]], [fpof(x) for x in i[1]]), FPV(0.0, w)), o[0][0].bits == i[0][0], val_eq(o[0][0].fp, z3.fpNeg(fpof(i[0][0])))))])
-        if L <= 2:   # vec1/vec2 unary minus is a pure sign-bit flip (vec3/vec4 compute 0 - v: value-equal, sign of zero differs -> C01)
-            S.check_fn(U, 'faceforward' + s, lambda i, o: [('sign-flip%d' % j, z3.Implies(z3.Not(z3.fpLT(fdot([fpof(x) for x in i[2]], [fpof(x) for x in i[1]]), FPV(0.0, w))),
-                       o[0][j].bits == (i[0][j] ^ z3.BitVecVal(1 << (w - 1), w)))) for j in range(L)], timeout=tm, name='c12.faceforward%s.fp-signflip' % s, side=False, witness=False, validate=0, bounds='all bit patterns')
+                   mutant=lambda i, o: [('m', z3.If(z3.fpLEQ(fdot([fpof(x) for x in i[2]], [fpof(x) for x in i[1]]), FPV(0.0, w)), same_float(o[0][0], i[0][0]), val_eq(o[0][0].fp, z3.fpNeg(fpof(i[0][0])))))])
+        if L <= 2:   # vec1/vec2 unary minus is a pure sign-bit flip (vec3/vec4 compute 0 - v: value-equal, sign of a zero component differs -> C01)
+            S.check_fn(U, 'faceforward' + s, signflip_spec(L, w), timeout=tm, name='c12.faceforward%s.fp-signflip' % s, side=False, witness=False, validate=0, bounds='all bit patterns, N not NaN')
     return run
 def job_fp_scalar(t):
     c, w = FT[t]
     def run(S):
         tm = S.cap(90, 300)
-        knan = lambda i: [z3.Not(z3.fpIsNaN(fk(i, w)[0]))]
-        S.check_fn(U, 's_refract_' + t, refract_fp_spec(1, w), knan, timeout=tm, name='c12.s_refract_%s.fp' % t, known=['KF-C12-scalar-refract-nan'], bounds='all bit patterns for which the documented k is not NaN')
+        S.check_fn(U, 's_refract_' + t, refract_fp_spec(1, w, True), knan(w), timeout=tm, solver='cvc5', name='c12.s_refract_%s.fp' % t, known=['KF-C12-scalar-refract-nan'], bounds='all bit patterns for which the documented k is not NaN')
         S.check_fn(U, 's_faceforward_' + t, faceforward_fp_spec(1, w), timeout=tm, name='c12.s_faceforward_%s.fp' % t, bounds='all bit patterns')
-        S.check_fn(U, 's_faceforward_' + t, lambda i, o: [('sign-flip', z3.Implies(z3.Not(z3.fpLT(z3.fpMul(RNE, fpof(i[2][0]), fpof(i[1][0])), FPV(0.0, w))), o[0][0].bits == (i[0][0] ^ z3.BitVecVal(1 << (w - 1), w))))],
-                   timeout=tm, name='c12.s_faceforward_%s.fp-signflip' % t, side=False, witness=False, validate=0, bounds='all bit patterns')
+        S.check_fn(U, 's_faceforward_' + t, signflip_spec(1, w), timeout=tm, name='c12.s_faceforward_%s.fp-signflip' % t, side=False, witness=False, validate=0, bounds='all bit patterns, N not NaN')
         # scalar and vec1 overloads take the same decision on the same values
-        for f, hyp in (('faceforward', lambda i: []), ('refract', lambda i: knan(i) + [z3.fpGEQ(fk(i, w)[0], FPV(0.0, w))])):
+        for f, hyp in (('faceforward', lambda i: []), ('refract', lambda i: knan(w)(i) + [canon(z3.fpGEQ(fk(i, w)[0], FPV(0.0, w)))])):
             ins = mkvars(U.fns['s_%s_%s' % (f, t)])
             r1 = sym_call(U, 's_%s_%s' % (f, t), ins=ins); r2 = sym_call(U, '%s_v1_%s' % (f, t), ins=ins)
-            S.prove('c12.%s_%s.scalar-vs-vec1' % (f, t), same_float(r1.outs[0][0], r2.outs[0][0]), hyp(ins) + r1.axioms + r2.axioms, timeout=tm,
+            S.prove('c12.%s_%s.scalar-vs-vec1' % (f, t), canon(same_float(r1.outs[0][0], r2.outs[0][0])), hyp(ins) + r1.axioms + r2.axioms, timeout=tm,
                     functions=['s_%s_%s' % (f, t), '%s_v1_%s' % (f, t)], bounds='all bit patterns' + ('' if f == 'faceforward' else ' with k >= 0 (k < 0: see KF-C12-scalar-refract-nan)'))
-        S.check_fn(U, 's_reflect_' + t, lambda i, o: [('formula', same_float(o[0][0], z3.fpToIEEEBV(z3.fpSub(RNE, fpof(i[0][0]), z3.fpMul(RNE, z3.fpMul(RNE, fpof(i[1][0]), z3.fpMul(RNE, fpof(i[1][0]), fpof(i[0][0]))), FPV(2.0, w))))))],
-                   timeout=tm, name='c12.s_reflect_%s.fp' % t, bounds='all bit patterns; I - N*dot(N,I)*2 evaluated in IEEE')
+        def rspec(i, o):
+            I, N = fpof(i[0][0]), fpof(i[1][0])
+            return [('formula', canon(same_float(o[0][0], z3.fpToIEEEBV(z3.fpSub(RNE, I, z3.fpMul(RNE, z3.fpMul(RNE, N, z3.fpMul(RNE, N, I)), FPV(2.0, w)))))))]
+        S.check_fn(U, 's_reflect_' + t, rspec, timeout=tm, name='c12.s_reflect_%s.fp' % t, bounds='all bit patterns; I - N*dot(N,I)*2 evaluated in IEEE')
     return run
 
 def jobs(tier):
@@ -204,4 +268,5 @@ def jobs(tier):
             J.append(('core_real_v%d_%s' % (L, t), job_core_real(t, L)))
             J.append(('fp_v%d_%s' % (L, t), job_fp(t, L)))
         J.append(('fp_scalar_' + t, job_fp_scalar(t)))
+    J.append(('ieee_lemmas', job_lemmas))
     return J
